@@ -43,6 +43,7 @@ type c06Offer struct {
 	V      string             `json:"v,omitempty"`  // craft: variant; concurrent: mode
 	N      int                `json:"n,omitempty"`  // craft: k; concurrent: width
 	Gate   bool               `json:"gate,omitempty"`
+	Shr    bool               `json:"shr,omitempty"` // built transaction declares the payload (hash) of a present transaction
 }
 
 type c06Case struct {
@@ -58,7 +59,7 @@ var c06HeaderKeys = []string{"alg", "cty", "crit", "sigt", "ver", "prevs", "lc",
 var c06Variants = []string{
 	"prev-unknown-add", "prev-unknown-only", "prev-dup", "prev-pool", "prev-zero", "prev-upper", "prev-short", "prevs-null",
 	"lc-plus", "lc-minus", "lc-frac", "lc-neg", "lc-wrap", "lc-negwrap", "lc-string", "lc-exp", "lc-float-eq", "lc-first-prev", "lc-zero-nonroot",
-	"second-root", "payload-not-hash", "payload-upper",
+	"second-root", "root-lc", "root-lc", "payload-not-hash", "payload-upper",
 	"kid-unknown", "kid-other-key", "jwk-other-key", "kid-not-asof", "jwk-private", "kid-and-jwk", "no-key-ref", "kid-empty-with-jwk",
 	"sig-empty", "sig-garbage", "sig-flip", "sig-truncated", "sig-high-s", "sig-der",
 	"alg-none", "alg-HS256", "alg-RS256", "alg-lower", "alg-mismatch", "alg-mismatch-stale",
@@ -83,6 +84,7 @@ func c06GenOffer(t *rapid.T) c06Offer {
 		o.Key = rapid.SampledFrom([]int{0, 0, 1, 1, 2, 2, 3, 4, 5}).Draw(t, "key")
 		o.Kid = rapid.IntRange(0, 2).Draw(t, "kid") == 0
 		o.Pal = rapid.IntRange(0, 4).Draw(t, "pal") == 0
+		o.Shr = rapid.IntRange(0, 3).Draw(t, "share") == 0
 	}
 	switch o.K {
 	case "mutate":
@@ -112,10 +114,18 @@ func c06Gen(t *rapid.T) c06Case {
 	}
 	// a slice generator (not a counted loop) so that rapid can drop single offers while shrinking
 	c.Offers = rapid.SliceOfN(rapid.Custom(c06GenOffer), 1, 30).Draw(t, "offers")
-	if c.Prefix == 0 && rapid.IntRange(0, 1).Draw(t, "roots") == 0 {
-		// competing roots need a concurrent group as the very first offer on an empty DAG
-		first := c06Offer{K: "concurrent", V: "siblings", Pay: "ok", N: rapid.IntRange(2, 5).Draw(t, "rwidth"), Gate: rapid.IntRange(0, 3).Draw(t, "rgate") != 0}
-		c.Offers = append([]c06Offer{first}, c.Offers...)
+	if c.Prefix == 0 {
+		switch rapid.IntRange(0, 3).Draw(t, "prelude") {
+		case 0:
+			// competing roots need a concurrent group as the very first offer on an empty DAG
+			first := c06Offer{K: "concurrent", V: "siblings", Pay: "ok", N: rapid.IntRange(2, 5).Draw(t, "rwidth"), Gate: rapid.IntRange(0, 3).Draw(t, "rgate") != 0}
+			c.Offers = append([]c06Offer{first}, c.Offers...)
+		case 1, 2:
+			// a prev-less transaction with a clock other than 0 as the very first offer, then the regular root and children
+			first := c06Offer{K: "craft", V: "root-lc", Sel: rapid.Uint32().Draw(t, "rsel"), N: 1, Key: rapid.IntRange(0, 5).Draw(t, "rkey"),
+				Pay: rapid.SampledFrom([]string{"ok", "ok", "none"}).Draw(t, "rpay")}
+			c.Offers = append([]c06Offer{first, {K: "fresh", Pay: "ok", NP: 1}, {K: "fresh", Pay: "ok", NP: 1, Sel: 1}, {K: "craft", V: "root-lc", N: 2, Pay: "ok"}}, c.Offers...)
+		}
 	}
 	return c
 }
@@ -178,6 +188,25 @@ func (f *c06Fix) base(o c06Offer, idx, sub int, forceKid, forceJWK bool) c06Base
 	b.key = keys[((o.Key%len(keys))+len(keys))%len(keys)]
 	b.alg = b.key.naturalAlg(o.Sel)
 	b.payload = []byte(fmt.Sprintf("c06 payload %d/%d/%d", idx, sub, o.Sel))
+	if o.Shr && n > 0 {
+		// payloads are content addressed and may be shared: declare the payload hash of a present transaction, in 2 of 3
+		// cases one whose payload is already stored (then the supplied bytes are "the same again" or, Pay=wrong, forged)
+		start := int(o.Sel/5) % n
+		for k := 0; k < n; k++ {
+			ph := f.ref.set[f.order[(start+k)%n]].PayloadHash()
+			pb, ok := f.known[ph]
+			if _, stored := f.pay[ph]; ok && (stored || o.Sel%3 == 0) {
+				b.payload = pb
+				break
+			}
+		}
+	}
+	f.known[hash.SHA256Sum(b.payload)] = b.payload
+	if _, stored := f.pay[hash.SHA256Sum(b.payload)]; stored {
+		f.x.Class("payload-hash-already-stored pay=" + o.Pay)
+	} else if o.Shr && n > 0 {
+		f.x.Class("payload-hash-shared-not-stored pay=" + o.Pay)
+	}
 	ver := int64(2)
 	if o.Sel%5 == 0 {
 		ver = 1
@@ -339,7 +368,7 @@ func (f *c06Fix) otherKey(k *c06Key) *c06Key {
 func (f *c06Fix) buildCrafted(o c06Offer, idx int, pool []vdTx) c06Sub {
 	v := o.V
 	forceKid := strings.HasPrefix(v, "kid-")
-	forceJWK := strings.HasPrefix(v, "jwk-") || v == "second-root" || v == "no-key-ref"
+	forceJWK := strings.HasPrefix(v, "jwk-") || v == "second-root" || v == "root-lc" || v == "no-key-ref"
 	if v == "sig-high-s" || v == "sig-der" || v == "alg-mismatch" || v == "alg-mismatch-stale" || v == "alg-HS256" {
 		o.Key = 0 // P-256
 	}
@@ -439,6 +468,15 @@ func (f *c06Fix) buildCrafted(o c06Offer, idx int, pool []vdTx) c06Sub {
 		hd["lc"] = c06Num(0)
 		if !f.hasRoot && o.Pay != "wrong" {
 			s.expect, s.hostile = true, false
+		}
+	case "root-lc":
+		// a transaction without previous transactions that claims a clock other than 0 (page edges, the maximum)
+		hd["prevs"] = []any{}
+		lcs := []int64{1, 2, 511, 512, 4294967295}
+		hd["lc"] = c06Num(lcs[(int(o.Sel/7)+k)%len(lcs)])
+		s.label += fmt.Sprintf("=%v", hd["lc"])
+		if !f.hasRoot {
+			s.label += " on-empty-DAG"
 		}
 	case "payload-not-hash":
 		s.data = c06Seal(hd, b.alg, b.key, []byte("c06-not-a-hash"))
@@ -873,6 +911,9 @@ func c06Run(x *h.Ctx, c c06Case) {
 	}
 	order := c.Shape.Order(c.Shape.Expand())
 	f := c06NewFix(x, shapeRes)
+	for _, t := range txs {
+		f.known[hash.SHA256Sum(t.Payload)] = t.Payload
+	}
 	prefix := c.Prefix
 	if prefix > len(order) {
 		prefix = len(order)
